@@ -58,7 +58,7 @@ def run(chk, args):
         chk.seed = int(replay.get("seed", chk.seed))
         chk.tier = replay.get("tier", chk.tier)
     thorough = chk.tier == "thorough"
-    permut, schemas_per, qmod, jmod, q3mod, pmod = (8, 5, 7, 5, 5, 2) if thorough else (2, 3, 31, 17, 17, 7)
+    permut, schemas_per, qmod, jmod, q3mod, pmod = (6, 4, 7, 5, 5, 2) if thorough else (2, 3, 31, 17, 17, 7)
     binp = vlib.go_build("c11")
     wd = vlib.scratch("c11_")
     out = os.path.join(wd, "cases.json")
